@@ -11,9 +11,22 @@ import os, sys, json, time, random, subprocess, hashlib, re, fcntl, glob, traceb
 
 VERIF = os.path.dirname(os.path.dirname(os.path.abspath(__file__)))
 REPO = os.environ.get("AIOCOAP_REPO", "/repo")
-COQ = os.path.join(VERIF, "coq")
+SHARED_COQ = os.path.join(VERIF, "coq")
+COQ = SHARED_COQ
 BUILD = os.path.join(VERIF, "build")
 COQC_FLAGS = ["-Q", COQ, "Verif", "-w", "-notation-overridden,-deprecated-hint-without-locality,-deprecated-instance-without-locality"]
+
+def use_private_coq_dir():
+    """Work on a private copy of coq/ (sources + compiled files): used by thorough runs (which rebuild the cone from scratch)
+    and by runs against a repository other than /repo (whose regenerated Gen files must not leak into the shared tree)."""
+    global COQ, COQC_FLAGS
+    import shutil, atexit
+    priv = os.path.join(BUILD, "coq-private-%d" % os.getpid())
+    with Lock():
+        run(["rsync", "-a", "--delete", SHARED_COQ + "/", priv + "/"], 600)
+    COQ = priv
+    COQC_FLAGS = ["-Q", COQ, "Verif"] + COQC_FLAGS[3:]
+    atexit.register(lambda: shutil.rmtree(priv, ignore_errors=True))
 NPROC = int(os.environ.get("VERIF_JOBS", "16"))
 
 
@@ -282,6 +295,8 @@ def regenerate(gen_jobs):
 
 def build(prop, tier):
     br = BuildResult()
+    if tier == "thorough" or os.path.abspath(REPO) != "/repo":
+        use_private_coq_dir()
     with Lock():
         ok, msg, changed = regenerate(prop.gen_jobs)
         br.gen_changed = changed
@@ -535,6 +550,12 @@ def run_check(prop, tier, seed):
 def run_replay(prop, path):
     assert_repo()
     d = json.load(open(path if os.path.isabs(path) else os.path.join(VERIF, path)))
+    if isinstance(d, list):          # a corpus file: replay every case in it
+        rc = 0
+        for i, c in enumerate(d):
+            tmp = os.path.join(BUILD, "replay", "_case_%d_%d.json" % (os.getpid(), i)); os.makedirs(os.path.dirname(tmp), exist_ok=True)
+            json.dump(c, open(tmp, "w")); rc |= run_replay(prop, tmp); os.remove(tmp)
+        return rc
     if "input" not in d:
         print("replay file names a broken obligation, no input: %s" % d.get("what")); return 1
     prop.setup()
